@@ -154,6 +154,7 @@ class Core:
         self.assumptions = []
         self.obligations = []
         self.obl_names = set()
+        self.goal_assumptions = set()
         self.counter = itertools.count()
         self.binders = []               # stack of (z3 var, guard)
         self.dry = 0
@@ -250,10 +251,13 @@ class Core:
         # assert-then-assume (exit-stage obligations are independent of each other: not assumed)
         if kind in ("post", "frame"):
             return
+        before = len(self.assumptions)
         if not self.binders:
             self.assume(z3.Implies(zbool(live), goal), st)
         else:
             self.assumptions.append(goal)       # already closed under the binders and the path
+        for i in range(before, len(self.assumptions)):
+            self.goal_assumptions.add(i)
 
     def probe(self, label, st):
         """vacuity guard: `False` must NOT be provable here (DESIGN 3.5)"""
